@@ -293,9 +293,19 @@ func (o Outcome) Equal(p Outcome) bool {
 }
 
 // Do issues a body-less request.
-func (b *Built) Do(verb, path, rawQuery string) Outcome {
+func (b *Built) Do(verb, path, rawQuery string) Outcome { return b.DoTarget(verb, path, "", rawQuery) }
+
+// DoTarget serves the request with the client's own spelling of the path
+// (rawTarget, percent-encoded) when one is given and decodes to path.
+func (b *Built) DoTarget(verb, path, rawTarget, rawQuery string) Outcome {
 	b.Rec.Take()
-	res := drive.Serve(b.Mux, drive.Request(verb, path, rawQuery, http.Header{}, nil, 0))
+	req := drive.Request(verb, path, rawQuery, http.Header{}, nil, 0)
+	if rawTarget != "" {
+		if r2, ok := drive.RequestTarget(verb, rawTarget, rawQuery, http.Header{}, nil, 0); ok && (r2.URL.Path == path || r2.URL.Path == path+"/") {
+			req = r2
+		}
+	}
+	res := drive.Serve(b.Mux, req)
 	calls := b.Rec.Take()
 	o := Outcome{Status: res.Rec.Code, Body: res.Rec.Body.String()}
 	if res.Panic != nil {
